@@ -2,24 +2,24 @@
 # seed_confirm.sh <id> [name] — confirms a seeded change produced in the scratch worktree /tmp/mut/<id>
 # (its _out/patch.diff): the demonstration passes on the clean tree and fails with the change, the pinned
 # suite still passes with the change; then stores it as /verif/seeded/<name>/ (patch.diff, demo.py, meta.json).
-id=$1; name=${2:-$1}; wt=/tmp/mut/$id
+id=$1; name=${2:-$1}; base=${3:-/tmp/mut2}; wt=$base/$id
 set -u
 cd $wt || exit 2
 [ -s $wt/_out/patch.diff ] || { echo "no patch"; exit 2; }
 git checkout -q -- src
-PYTHONPATH=$wt/src /venv/bin/python $wt/_out/demo.py >/tmp/mut/$id.demo_clean.txt 2>&1; rc_clean=$?
+PYTHONPATH=$wt/src /venv/bin/python $wt/_out/demo.py >$base/$id.demo_clean.txt 2>&1; rc_clean=$?
 git apply $wt/_out/patch.diff || { echo "patch does not apply"; exit 2; }
-PYTHONPATH=$wt/src /venv/bin/python $wt/_out/demo.py >/tmp/mut/$id.demo_mut.txt 2>&1; rc_mut=$?
-REPO_DIR=$wt /verif/tools/baseline.sh > /tmp/mut/$id.base.txt 2>&1; rc_base=$?
-echo "$id: demo clean rc=$rc_clean  mutated rc=$rc_mut  baseline rc=$rc_base: $(grep baseline: /tmp/mut/$id.base.txt)"
+PYTHONPATH=$wt/src /venv/bin/python $wt/_out/demo.py >$base/$id.demo_mut.txt 2>&1; rc_mut=$?
+REPO_DIR=$wt /verif/tools/baseline.sh > $base/$id.base.txt 2>&1; rc_base=$?
+echo "$id: demo clean rc=$rc_clean  mutated rc=$rc_mut  baseline rc=$rc_base: $(grep baseline: $base/$id.base.txt)"
 if [ $rc_clean -eq 0 ] && [ $rc_mut -ne 0 ] && [ $rc_base -eq 0 ]; then
   mkdir -p /verif/seeded/$name
   git diff -- src > /verif/seeded/$name/patch.diff
   cp $wt/_out/demo.py /verif/seeded/$name/demo.py
   cp $wt/_out/meta.json /verif/seeded/$name/meta.json 2>/dev/null
-  tail -5 /tmp/mut/$id.demo_mut.txt > /verif/seeded/$name/demo_output_with_change.txt
+  tail -5 $base/$id.demo_mut.txt > /verif/seeded/$name/demo_output_with_change.txt
   echo "CONFIRMED -> /verif/seeded/$name"
 else
-  echo "NOT CONFIRMED"; tail -5 /tmp/mut/$id.demo_clean.txt; tail -5 /tmp/mut/$id.demo_mut.txt; tail -8 /tmp/mut/$id.base.txt
+  echo "NOT CONFIRMED"; tail -5 $base/$id.demo_clean.txt; tail -5 $base/$id.demo_mut.txt; tail -8 $base/$id.base.txt
   exit 1
 fi
